@@ -585,6 +585,10 @@ def gen_cli(tier, rng):
         file = rnd_file(rng, today, esc, hh * 60 + mm)
         for cmd in CLI_COMMANDS:
             out.append("style-cli %s %s %s" % (hx(file), clock, " ".join(cmd.split(" ") + rnd_flags(rng, cmd))))
+        if i % 3 == 0:
+            # the report's optional columns all at once, with gap rows
+            fl = ["report", "--aggregate", rng.choice(["day", "week", "month"]), "--fill", "--chart", "--no-warn"] + rng.choice([[], ["--diff"], ["--diff", "--now"]])
+            out.append("style-cli %s %s %s" % (hx(file), clock, " ".join(fl)))
     return [l.rstrip(" ") for l in out]
 
 
